@@ -148,7 +148,7 @@ class Elem:
             return self.compare(sl)
         if isinstance(sl, ast.Name):
             v = self.env.get(sl.id)
-            if isinstance(v, sp.logic.boolalg.Boolean) or isinstance(v, sp.core.relational.Relational):
+            if isinstance(v, (sp.core.relational.Relational, sp.logic.boolalg.BooleanFunction)):
                 return v
         return None
 
@@ -164,7 +164,15 @@ class Elem:
                 return fn(l, r)
         self.err("comparison operator", e)
 
+    @staticmethod
+    def indicator(v):
+        """a boolean used in arithmetic counts as 0/1"""
+        if isinstance(v, (sp.core.relational.Relational, sp.logic.boolalg.BooleanFunction, sp.logic.boolalg.BooleanAtom)):
+            return sp.Piecewise((sp.Integer(1), v), (sp.Integer(0), True))
+        return v
+
     def binop(self, op, l, r, node):
+        l, r = self.indicator(l), self.indicator(r)
         if isinstance(op, ast.Add):
             return l + r
         if isinstance(op, ast.Sub):
@@ -276,6 +284,10 @@ class Elem:
                 return sp.Max(recv, self.expr(lo[0])) if lo else recv
             self.err(f"method .{m}() not modelled", e)
         if d and d.split(".")[0] in ("np", "numpy", "math"):
+            if short in ("ones", "ones_like"):
+                return sp.Integer(1)
+            if short in ("zeros", "zeros_like"):
+                return sp.Integer(0)
             args = [self.expr(a) for a in e.args]
             if short in UFUNCS and len(args) == 1:
                 return UFUNCS[short](args[0])
@@ -287,6 +299,8 @@ class Elem:
                 return LinearSum(args[0])
             if short == "prod":
                 return Prod(args[0])
+            if short in ("tensordot", "dot") and len(args) >= 2:
+                return LinearSum(args[0] * args[1])  # contraction = sum of products
             if short in ("min", "amin"):
                 return sp.Function("Min_over")(args[0])
             if short in ("max", "amax"):
